@@ -12,6 +12,7 @@ Lambdas that capture a non-const variable by copy, generic lambdas, lambdas with
 (std::for_each(..., lam)) are left alone: the rules treat those through their own wrapper summaries.  Declarations inside an
 inlined body get fresh ids per call site so that two inlined copies in one function never share a local."""
 import copy
+import re
 
 from .model import walk, strip, children, _SUBKEYS
 
@@ -557,3 +558,135 @@ def inline_new_helpers(prog, inventory, repo_prefix):
         if not changed:
             break
     return total
+
+
+# ---- constant tables -----------------------------------------------------------------------------------------------
+def _peel(e):
+    e = strip(e)
+    while e.get("k") == "ParenExpr" and e.get("c"):
+        e = strip(e["c"][0])
+    return e
+
+
+def _rewrite(n, f):
+    """post-order rewrite of every sub-node (all child slots)"""
+    for key in _SUBKEYS + ("var", "condvar"):
+        if isinstance(n.get(key), dict):
+            n[key] = _rewrite(n[key], f)
+    for key in ("c", "decls", "handlers"):
+        if isinstance(n.get(key), list):
+            n[key] = [_rewrite(x, f) if isinstance(x, dict) else x for x in n[key]]
+    return f(n)
+
+
+def _own_jumps(body):
+    """break / continue statements that belong to the loop whose body this is"""
+    out = []
+
+    def rec(n, in_loop, in_switch):
+        k = n.get("k")
+        if k == "LambdaExpr":
+            return
+        if k == "BreakStmt" and not in_loop and not in_switch:
+            out.append(n)
+        if k == "ContinueStmt" and not in_loop:
+            out.append(n)
+        from .model import children as _ch
+        for c in _ch(n):
+            rec(c, in_loop or k in ("ForStmt", "WhileStmt", "DoStmt", "CXXForRangeStmt"), in_switch or k == "SwitchStmt")
+    rec(body, False, False)
+    return out
+
+
+def unroll_constant_tables(prog, repo_prefix):
+    """A range-for over a *constant global table* (const / constexpr std::array or C array of aggregates, fully brace-initialised)
+    whose body reads the loop variable only through its fields is replaced by one copy of the body per row, with `row.field`
+    substituted by that row's initialiser and `obj.*(&C::f)` folded to `obj.f`.  The table is immutable and the rows are visited in
+    order, so the unrolled sequence is the loop's own execution; rules written for straight-line code then decide table-driven code
+    too.  Returns the number of loops unrolled."""
+    done = 0
+    by_did = {g.get("did"): g for g in prog.globals.values() if isinstance(g, dict)}
+    for fn in list(prog.functions.values()):
+        if fn.get("pseudo") or not isinstance(fn.get("body"), dict) or not fn.get("file", "").startswith(repo_prefix) or "/lib/" in fn.get("file", ""):
+            continue
+        if not any(x.get("k") == "CXXForRangeStmt" for x in walk(fn["body"])):
+            continue
+        counter = [max([d for d in _all_dids(fn["body"])] + [_FRESH]) + 1]
+
+        def unroll(loop):
+            nonlocal done
+            if loop.get("k") != "CXXForRangeStmt":
+                return loop
+            rng = _peel(loop.get("range") or {})
+            if rng.get("k") != "DeclRefExpr" or (rng.get("ref") or {}).get("dk") != "Var":
+                return loop
+            g = by_did.get(rng["ref"].get("did"))
+            if g is None or g.get("name") != rng["ref"].get("name") or not isinstance(g.get("init"), dict):
+                return loop
+            gt = (g.get("t") or rng.get("t") or "")
+            if not gt.startswith("const "):
+                return loop
+            var = loop.get("var") or {}
+            vt = (var.get("t") or "").strip()
+            if not (vt.startswith("const ") or not vt.endswith("&")):
+                return loop
+            row_t = re.sub(r"^const\s+", "", vt).rstrip("&").strip()
+            row_t = re.sub(r"\s+const$", "", row_t)
+            rec_ = prog.records.get(row_t)
+            if rec_ is None or rec_.get("bases"):
+                return loop
+            fields = [f_["did"] for f_ in rec_.get("fields", [])]
+            rows = []
+
+            def collect(n, inside):
+                if n.get("k") == "InitListExpr" and n.get("t", "").replace("const ", "") == row_t and not inside:
+                    rows.append(n)
+                    return
+                for c in n.get("c", []) or []:
+                    if isinstance(c, dict):
+                        collect(c, inside)
+            collect(g["init"], False)
+            m = re.search(r"(?:,\s*(\d+)\s*>|\[(\d+)\])\s*$", gt)
+            if not rows or m is None or int(m.group(1) or m.group(2)) != len(rows):
+                return loop
+            if any(len([c for c in r.get("c", []) if isinstance(c, dict)]) != len(fields) for r in rows):
+                return loop
+            body = loop["body"]
+            vdid = var.get("did")
+            # the loop variable is read through its fields only
+            uses = [x for x in walk(body) if x.get("k") == "DeclRefExpr" and (x.get("ref") or {}).get("did") == vdid]
+            member_uses = [x for x in walk(body) if x.get("k") == "MemberExpr" and x.get("c") and _peel(x["c"][0]).get("k") == "DeclRefExpr" and (_peel(x["c"][0]).get("ref") or {}).get("did") == vdid and (x.get("ref") or {}).get("did") in fields]
+            if len(uses) != len(member_uses) or _own_jumps(body):
+                return loop
+            copies = []
+            for r in rows:
+                vals = [c for c in r["c"] if isinstance(c, dict)]
+                mapping = {}
+                for d in _declared(body):
+                    mapping[d] = counter[0]
+                    counter[0] += 1
+                b = _remap(body, mapping)
+
+                def sub(n):
+                    if n.get("k") == "MemberExpr" and n.get("c") and _peel(n["c"][0]).get("k") == "DeclRefExpr" and (_peel(n["c"][0]).get("ref") or {}).get("did") == vdid and (n.get("ref") or {}).get("did") in fields:
+                        v = copy.deepcopy(vals[fields.index(n["ref"]["did"])])
+                        return {"k": "ParenExpr", "l": n.get("l"), "t": n.get("t"), "c": [v]}
+                    if n.get("k") == "BinaryOperator" and n.get("op") in (".*", "->*") and len(n.get("c", [])) == 2:
+                        rhs = _peel(n["c"][1])
+                        if rhs.get("k") == "UnaryOperator" and rhs.get("op") == "&" and rhs.get("c"):
+                            tgt = _peel(rhs["c"][0])
+                            if tgt.get("k") == "DeclRefExpr" and (tgt.get("ref") or {}).get("dk") == "Field":
+                                return {"k": "MemberExpr", "arrow": n["op"] == "->*", "l": n.get("l"), "t": n.get("t"), "vc": n.get("vc"), "ref": dict(tgt["ref"]), "c": [n["c"][0]]}
+                    return n
+                b = _rewrite(b, sub)
+                if b.get("k") != "CompoundStmt":
+                    b = {"k": "CompoundStmt", "l": loop.get("l"), "c": [b]}
+                b["inlined_lambda"] = True
+                b["table_row"] = g.get("name")
+                copies.append(b)
+            done += 1
+            return {"k": "CompoundStmt", "l": loop.get("l"), "c": copies, "inlined_lambda": True, "unrolled_table": g.get("name")}
+
+        fn["body"] = _rewrite(fn["body"], unroll)
+        fn.pop("_stable_locals", None)
+    return done
